@@ -2,8 +2,8 @@ SPEC_PART = dict(
     props_file="C18_tdigest",
     legs=[dict(family="tdigest", focus="size", oracles=["codec_ok", "c15_ok"], profiles=["debug"],
                mask=[0, 1, 7, 8, 9, 10, 14, 15, 17, 19, 21], n_quick=6, n_thorough=12)],
-    trusted=["tdigest: the bound on the number of centroids (2k + 30) is measured, not proved (C15's analytic half)"],
+    trusted=["tdigest: the bound on the number of centroids (2k + 30) is a threshold test (oracle c15_ok), not proved (C15's analytic half)"],
     assumptions=[],
-    covers="tdigest: image size = 8 | 16 | 32 + 16 * centroids; in-process buffer <= 4 * (2k + fudge) (Props/C18_tdigest.v); tie: "
+    covers="tdigest: image size = 8 | 16 | 32 + 16 * centroids; buffer <= 4 * (2k + fudge) for histories from new(k) -- a decoded image's buffer is whatever the image says -- (Props/C18_tdigest.v); tie: "
            "serialize().len() after every power-of-two prefix of streams up to 2^14 (quick) / 2^16 (thorough) values checked against the "
            "formula, centroids <= 2k + 30 measured on every dump")
